@@ -45,13 +45,16 @@ const CORE: bool = cfg!(feature = "core");
 const UTF8: bool = cfg!(feature = "utf8");
 const OSC_CAP: usize = 1024;
 
-fn real(data: &[u8]) -> Vec<Ev> {
-    let mut p = anstyle_parse::Parser::<anstyle_parse::DefaultCharAccumulator>::new();
-    let mut r = Recorder::default();
-    for &b in data {
-        p.advance(&mut r, b);
-    }
-    r.ev
+fn real(data: &[u8]) -> Result<Vec<Ev>, String> {
+    std::panic::catch_unwind(|| {
+        let mut p = anstyle_parse::Parser::<anstyle_parse::DefaultCharAccumulator>::new();
+        let mut r = Recorder::default();
+        for &b in data {
+            p.advance(&mut r, b);
+        }
+        r.ev
+    })
+    .map_err(|e| e.downcast_ref::<String>().cloned().or_else(|| e.downcast_ref::<&str>().map(|s| s.to_string())).unwrap_or_else(|| "panic".into()))
 }
 
 fn reference(data: &[u8]) -> Vec<Ev> {
@@ -67,34 +70,92 @@ fn ev_hash(ev: &[Ev]) -> u64 {
     hash64(format!("{ev:?}").as_bytes())
 }
 
-fn max_osc_payload(data: &[u8]) -> usize {
-    // longest run of OSC payload bytes (bytes other than ';') according to the uncapped reference
-    let ev = {
-        let mut r = RefVt::new(Policy::Consume);
-        r.feed(data);
-        r.ev
+/// (largest number of payload bytes stored by any OSC string, whether a separator arrived while exactly OSC_CAP bytes
+/// were stored) according to the uncapped reference
+fn osc_fill(data: &[u8]) -> (usize, bool) {
+    use refmodel::vt::St;
+    let mut r = RefVt::new(Policy::Consume);
+    let (mut cur, mut max, mut sep_at_full) = (0usize, 0usize, false);
+    for &b in data {
+        let was_osc = r.st == St::Osc && !r.mid_char();
+        r.step(b);
+        r.ev.clear();
+        if was_osc && r.st == St::Osc {
+            if b == b';' && cur == OSC_CAP {
+                sep_at_full = true;
+            }
+            if b >= 0x20 && b != b';' {
+                cur += 1;
+                max = max.max(cur);
+            }
+        } else if r.st == St::Osc && !was_osc {
+            cur = 0;
+        }
+    }
+    (max, sep_at_full)
+}
+
+pub const SIG_F15: &str = "c20:in-limit:separator-after-exactly-full-buffer";
+
+/// The two rules of the property for one stream: (1) the build behaves like the reference with its documented limit,
+/// (2) when every OSC payload fits the fixed buffer, it behaves like the reference without any limit (= like every
+/// other configuration).  Returns (signature, message) of the first broken rule.
+fn evaluate(data: &[u8]) -> (Vec<Ev>, bool, Option<(String, String)>) {
+    let got = match real(data) {
+        Ok(g) => g,
+        Err(p) => return (vec![], false, Some(("c20:panic".into(), format!("the parser panicked: {p}")))),
     };
-    ev.iter().map(|e| if let Ev::Osc { params, .. } = e { params.iter().map(|p| p.len()).sum() } else { 0 }).max().unwrap_or(0)
+    let want = reference(data);
+    let (fill, sep_at_full) = osc_fill(data);
+    let fits = fill <= OSC_CAP;
+    let diff = |a: &[Ev], b: &[Ev]| {
+        let n = a.iter().zip(b.iter()).position(|(x, y)| x != y).unwrap_or(a.len().min(b.len()));
+        format!("event {n}: observed {:?}, expected {:?} (lengths {} / {})", a.get(n), b.get(n), a.len(), b.len())
+    };
+    if got != want {
+        return (got.clone(), fits && !sep_at_full, Some(("c20:events".into(), diff(&got, &want))));
+    }
+    if fits && CORE {
+        let unlimited = {
+            let mut r = RefVt::new(Policy::Consume);
+            r.feed(data);
+            r.ev
+        };
+        if got != unlimited {
+            let sig = if sep_at_full { SIG_F15 } else { "c20:in-limit-differs" };
+            return (got.clone(), fits && !sep_at_full, Some((sig.into(), format!("every OSC payload fits the {OSC_CAP}-byte buffer, yet this build differs from the unlimited configurations: {}", diff(&got, &unlimited)))));
+        }
+    }
+    (got, fits && !sep_at_full, None)
 }
 
 fn main() {
+    // keep the first few panic messages (a panicking parser would otherwise flood stderr)
+    static SHOWN: std::sync::atomic::AtomicUsize = std::sync::atomic::AtomicUsize::new(0);
+    let default_hook = std::panic::take_hook();
+    std::panic::set_hook(Box::new(move |info| {
+        if SHOWN.fetch_add(1, std::sync::atomic::Ordering::Relaxed) < 3 {
+            default_hook(info);
+        }
+    }));
     let args: Vec<String> = std::env::args().collect();
     if args.get(1).map(|s| s.as_str()) == Some("replay") {
         let data = refmodel::json::unhex(args.get(2).map(|s| s.as_str()).unwrap_or("")).expect("hex");
-        let got = real(&data);
-        let want = reference(&data);
+        let (_, _, bad) = evaluate(&data);
         let mut o = J::obj();
         o.set("features", J::s(format!("core={CORE} utf8={UTF8}")));
-        if got == want {
-            o.set("replay", J::s("held"));
-        } else {
-            let n = got.iter().zip(want.iter()).position(|(a, b)| a != b).unwrap_or(got.len().min(want.len()));
-            o.set("replay", J::s("violated"));
-            o.set("sig", J::s("c20:events"));
-            o.set("msg", J::s(format!("event {n}: observed {:?}, expected {:?}", got.get(n), want.get(n))));
+        match &bad {
+            None => {
+                o.set("replay", J::s("held"));
+            }
+            Some((sig, msg)) => {
+                o.set("replay", J::s("violated"));
+                o.set("sig", J::s(sig));
+                o.set("msg", J::s(msg));
+            }
         }
         println!("{}", o.to_string());
-        std::process::exit(if got == want { 0 } else { 1 });
+        std::process::exit(if bad.is_none() { 0 } else { 1 });
     }
     let tier = args.get(1).map(|s| s.as_str()).unwrap_or("quick");
     let seed: u64 = args.get(2).and_then(|s| s.parse().ok()).unwrap_or(1);
@@ -107,35 +168,35 @@ fn main() {
     };
     let mut evaluations = 0u64;
     let mut distinct = std::collections::HashSet::new();
-    let mut viols: Vec<J> = vec![];
+    let viols: Vec<J> = vec![];
     let mut nviol = 0u64;
     // hash over the event logs of all streams whose OSC payloads fit the fixed buffer: must be identical across builds
     let mut log_hash_small: u64 = 0;
     let mut n_small = 0u64;
     let mut n_truncated = 0u64;
     let mut samples: Vec<J> = vec![];
+    let mut by_sig: std::collections::BTreeMap<String, (u64, J)> = Default::default();
     let mut check = |data: &[u8], origin: &str, evaluations: &mut u64| {
         *evaluations += 1;
-        let got = real(data);
-        let want = reference(data);
-        let fits = max_osc_payload(data) <= OSC_CAP;
-        if fits {
+        let (got, hashable, bad) = evaluate(data);
+        if hashable && data.iter().all(|b| *b < 0x80) {
             log_hash_small = log_hash_small.wrapping_mul(0x100000001b3).wrapping_add(ev_hash(&got));
             n_small += 1;
         } else if CORE {
             n_truncated += 1;
         }
-        if got != want {
+        if let Some((sig, msg)) = bad {
             nviol += 1;
-            if viols.len() < 5 {
-                let n = got.iter().zip(want.iter()).position(|(a, b)| a != b).unwrap_or(got.len().min(want.len()));
+            let e = by_sig.entry(sig.clone()).or_insert_with(|| {
                 let mut o = J::obj();
+                o.set("sig", J::s(&sig));
                 o.set("origin", J::s(origin));
                 o.set("input_hex", J::s(refmodel::json::hex(data)));
                 o.set("input_shown", J::s(show(&data[..data.len().min(160)])));
-                o.set("msg", J::s(format!("event {n}: observed {:?}, expected {:?} (lengths {} / {})", got.get(n), want.get(n), got.len(), want.len())));
-                viols.push(o);
-            }
+                o.set("msg", J::s(msg));
+                (0, o)
+            });
+            e.0 += 1;
         }
     };
     // 1. seeded 7-bit streams
@@ -207,6 +268,37 @@ fn main() {
             check(&s, "oversize-osc", &mut evaluations);
         }
     }
+    // 2b. fill levels right at the cap with a separator as the last byte, and payloads far above the cap
+    let mut kk = 0u64;
+    for stored in [1022usize, 1023, 1024, 1025, 1026, 2048, 65535, 65536, 70000] {
+        for fields in [0usize, 1, 2, 15, 16, 17] {
+            for last_sep in [false, true] {
+                kk += 1;
+                if kk % nshards != shard {
+                    continue;
+                }
+                let mut body: Vec<u8> = vec![];
+                let per = (stored / (fields + 1)).max(1);
+                let mut put = 0usize;
+                while put < stored {
+                    body.push(b'a' + (put % 26) as u8);
+                    put += 1;
+                    if fields > 0 && put % per == 0 && body.iter().filter(|c| **c == b';').count() < fields {
+                        body.push(b';');
+                    }
+                }
+                if last_sep {
+                    body.push(b';');
+                }
+                let mut s = b"x\x1b]".to_vec();
+                s.extend_from_slice(&body);
+                s.extend_from_slice(if kk % 3 == 0 { &b"\x07"[..] } else if kk % 3 == 1 { b"\x1b\\" } else { b"\x1a" });
+                s.extend_from_slice(b"y\x1b]2;second;osc\x07z\x1b[38;5;1mw\x1bP1$rq\x1b\\v");
+                distinct.insert(hash64(&s));
+                check(&s, "fill-level", &mut evaluations);
+            }
+        }
+    }
     // 3. long OSC strings with random content: payload 900..1200 bytes incl. C0 controls (ignored), DEL, separators
     //    anywhere, any terminator (or none), followed by a short random stream
     let nlong = nstreams / 15 + 20;
@@ -241,6 +333,29 @@ fn main() {
         check(&s, "long-osc", &mut evaluations);
         i += nshards;
     }
+    // 4. 8-bit payloads: a multi-byte character straddling the cap at every offset (truncation is by bytes, at the limit),
+    //    also inside the limit and far above it; excluded from the cross-build hash (the cross-build rule is about 7-bit input)
+    let mut k4 = 0u64;
+    for lead in [0usize, 500, 1016, 1017, 1018, 1019, 1020, 1021, 1022, 1023, 1024, 1025, 1026, 1030, 3000] {
+        for ch in ["\u{e9}", "\u{6f22}", "\u{1f600}", "\u{e9}\u{6f22}"] {
+            for (ti, term) in [&b"\x07"[..], b"\x1b\\", b"\x18"].iter().enumerate() {
+                k4 += 1;
+                if k4 % nshards != shard {
+                    continue;
+                }
+                let mut s = b"A\x1b]52;".to_vec();
+                s.extend(std::iter::repeat(b'a').take(lead.saturating_sub(3)));
+                for _ in 0..(3 + ti) {
+                    s.extend_from_slice(ch.as_bytes());
+                }
+                s.extend_from_slice(b";tail");
+                s.extend_from_slice(term);
+                s.extend_from_slice(b"B\x1b[1;2mC\x1b]0;t\x07D");
+                distinct.insert(hash64(&s));
+                check(&s, "8-bit-osc", &mut evaluations);
+            }
+        }
+    }
     drop(check);
     let mut o = J::obj();
     o.set("features", J::s(format!("core={CORE} utf8={UTF8}")));
@@ -250,7 +365,19 @@ fn main() {
     o.set("streams_with_truncated_osc", J::UInt(n_truncated));
     o.set("log_hash_small", J::s(format!("{log_hash_small:016x}")));
     o.set("violation_count", J::UInt(nviol));
-    o.set("violations", J::Arr(viols));
+    let _ = &viols;
+    o.set(
+        "violations",
+        J::Arr(
+            by_sig
+                .into_iter()
+                .map(|(_, (n, mut o))| {
+                    o.set("count", J::UInt(n));
+                    o
+                })
+                .collect(),
+        ),
+    );
     o.set("samples", J::Arr(samples));
     println!("{}", o.to_string());
 }
